@@ -32,7 +32,7 @@ def run(src, tier, seed):
 
     # ---- R1 mask after clause
     r = res.rule('clause-mask-after-add', 'after every smt_solver->addOriginalSMTClause in MainSolver, pmanager.addClauseClassMask follows on every path on which '
-                 'a clause was created and partitions are tracked', floor=3)
+                 'a clause was created and partitions are tracked (one instance per function that adds clauses: a helper or lambda may merge sites)', floor=2)
     n_sites = 0
     for f in fx.F.values():
         if f.get('class') != 'opensmt::MainSolver':
@@ -65,10 +65,9 @@ def run(src, tier, seed):
             res.bad(r, 'no-mask:%s' % f['name'], fx.loc(f, adds[0]['ln']), '%s adds an original clause that can reach the function exit (line %s) without a partition mask '
                     'although partitions are tracked: the clause is invisible to the core / interpolation' % (f['name'], sorted({b.get('ln') if isinstance(b, dict) else 'end' for b in bad}, key=str)))
         else:
-            for a in adds:
-                res.ok(r, '%s: addOriginalSMTClause -> addClauseClassMask' % fx.loc(f, a['ln']))
-    if n_sites < 3:
-        raise AnalysisBroken('expected >= 3 addOriginalSMTClause sites in MainSolver, found %d' % n_sites)
+            res.ok(r, '%s: addOriginalSMTClause -> addClauseClassMask (%d site(s): lines %s)' % (f['name'], len(adds), [a['ln'] for a in adds]))
+    if n_sites < 2:
+        raise AnalysisBroken('expected addOriginalSMTClause sites in MainSolver::initialize and giveToSolver, found %d site(s)' % n_sites)
 
     # ---- R2 proof traversal covers the clause kinds
     r = res.rule('core-traversal-kinds', 'UnsatCoreBuilder::computeClauses collects CLA_ORIG leaves and expands every clause kind that carries a chain in ResolutionProof', floor=6)
